@@ -81,6 +81,8 @@ def _case(draw):
     spec["u_dot"] = [draw(gen.f(-2, 2)) for _ in range(12)]
     spec["la_N"] = draw(gen.f(-2, 2))
     spec["la_F"] = [draw(gen.f(-2, 2)), draw(gen.f(-2, 2))]
+    # order in which the subsystems are added to the System (the contact's second subsystem may come first)
+    spec["add_reversed"] = draw(st.booleans())
     return spec
 
 
@@ -111,13 +113,13 @@ def build_case(spec):
         sub = build.make_body(spec["sub"], name="sub")
         c = Sphere2Plane(plane, sub, mu=spec["mu"], r=spec["r"], B_r_CP=np.array(spec["B_r_CP"], dtype=float),
                          e_N=spec["e_N"], e_F=spec["e_F"], anisotropy=np.array(spec["anisotropy"], dtype=float))
-        system.add(plane, sub, c)
+        system.add(*((sub, plane, c) if spec.get("add_reversed") else (plane, sub, c)))
         subs = [sub]
     else:
         s1 = build.make_body(spec["s1"], name="s1")
         s2 = build.make_body(spec["s2"], name="s2")
         c = Sphere2Sphere(s1, s2, spec["r1"], spec["r2"], spec["mu"], e_N=spec["e_N"], e_F=spec["e_F"])
-        system.add(s1, s2, c)
+        system.add(*((s2, s1, c) if spec.get("add_reversed") else (s1, s2, c)))
         subs = [s1, s2]
     sysbuild.assemble(system)
     return system, c, subs
@@ -150,6 +152,10 @@ def check(spec):
         res.ok()
         if not np.isfinite(err) or err > 1e-10 * (1.0 + scale):
             res.fail(sub, site, err, feats, f"err={err:.3e}")
+
+    first = {"g_N": np.array(system.g_N(t, q)), "g_N_dot": np.array(system.g_N_dot(t, q, u)), "W_N": D(system.W_N(t, q)).copy()}
+    if mu > 0:
+        first.update(gamma_F=np.array(system.gamma_F(t, q, u)), W_F=D(system.W_F(t, q)).copy())
 
     # ---- independent geometric oracle ------------------------------------------------------
     kin = []
@@ -261,6 +267,16 @@ def check(spec):
                     lambda q_: system.gamma_F_dot(t, q_, u, ud), "q")
             exposed("gamma_F_dot_u", lambda: system.gamma_F_dot_u(t, q, u, ud),
                     lambda u_: system.gamma_F_dot(t, q, u_, ud), "u")
+
+    # ---- after everything else was evaluated: the basic quantities at the first state are unchanged ----------
+    res.ok()
+    again = {"g_N": system.g_N(t, q), "g_N_dot": system.g_N_dot(t, q, u), "W_N": D(system.W_N(t, q))}
+    if mu > 0:
+        again.update(gamma_F=system.gamma_F(t, q, u), W_F=D(system.W_F(t, q)))
+    for nm, val in again.items():
+        if not np.array_equal(np.asarray(val), first[nm]):
+            res.fail("re_evaluation_after_other_queries", f"{site}.{nm}", float(np.max(np.abs(np.asarray(val) - first[nm]))), feats)
+            break
 
     radius_pos = (spec["r"] > 0) if kind == "S2P" else True
     res.nontrivial = mu > 0 and radius_pos and rotating and vt_norm > 1e-3
